@@ -5,6 +5,7 @@ import (
 	"encoding/json"
 	"fmt"
 	"math/rand/v2"
+	"slices"
 	"sort"
 
 	"github.com/awslabs/operatorpkg/status"
@@ -41,7 +42,7 @@ type GCNode struct {
 }
 type NamedFault struct {
 	Name  string `json:"name"`
-	Fault string `json:"fault"` // "notfound" | "err"
+	Fault string `json:"fault"` // one of apiErrClasses
 }
 type GCIn struct {
 	Claims            []GCClaim    `json:"claims"`
@@ -51,6 +52,13 @@ type GCIn struct {
 	ProviderListFault bool         `json:"providerListFault"` // cloudProvider.List fails
 	NodeListFaultPIDs []string     `json:"nodeListFaultPids"` // the Node lookup for these provider ids fails
 	DeleteFaults      []NamedFault `json:"deleteFaults"`
+	// WHICH error the failing reads return (the decision must not depend on it: a read that failed has
+	// established nothing, whatever the type of its error). "" = "err" (an untyped / internal error).
+	ListClaimsErr   string `json:"listClaimsErr,omitempty"`   // one of apiErrClasses
+	ProviderListErr string `json:"providerListErr,omitempty"` // one of providerErrClasses
+	NodeListErr     string `json:"nodeListErr,omitempty"`     // one of apiErrClasses
+	// the failing cloudProvider.List also returns the first half of the instances (value AND error)
+	ProviderListPartial bool `json:"providerListPartial,omitempty"`
 }
 type GCOut struct {
 	Deleted []string `json:"deleted"` // sorted names of the NodeClaims Delete was called for
@@ -116,18 +124,69 @@ func genGCBase(r *rand.Rand, dupReady float64) GCIn {
 			nn++
 		}
 	}
-	switch x := r.Float64(); {
-	case x < 0.05:
+	// a failing list call: 6% the NodeClaim list, 12% the provider list (2% both); the error class is uniform
+	// over apiErrClasses / providerErrClasses; a failing provider List returns a partial result as well in 1/3
+	if x := r.Float64(); x < 0.06 {
 		in.ListClaimsFault = true
-	case x < 0.10:
+		in.ListClaimsErr = pick(r, apiErrClasses)
+	}
+	if x := r.Float64(); x < 0.12 || (in.ListClaimsFault && x < 0.33) {
 		in.ProviderListFault = true
+		in.ProviderListErr = pick(r, providerErrClasses)
+		in.ProviderListPartial = r.IntN(3) == 0
 	}
 	for _, c := range in.Claims {
 		if r.Float64() < 0.1 {
-			in.DeleteFaults = append(in.DeleteFaults, NamedFault{Name: c.Name, Fault: pick(r, []string{"notfound", "err"})})
+			in.DeleteFaults = append(in.DeleteFaults, NamedFault{Name: c.Name, Fault: pick(r, apiErrClasses)})
 		}
 	}
 	return in
+}
+
+// enumGC: every error class at every guarding list call, on a small cluster that has something to lose:
+// three Registered NodeClaims (Node Ready / Node NotReady / no Node) whose instances the provider
+// {all still lists, lists none of, lists as terminating}. Whatever the class of the error, a failed list
+// establishes nothing.
+func enumGC(_ core.Tier) []any {
+	var out []any
+	base := func(prov string) GCIn {
+		in := GCIn{Claims: []GCClaim{}, Provider: []GCInst{}, Nodes: []GCNode{}, NodeListFaultPIDs: []string{}, DeleteFaults: []NamedFault{}}
+		for k, rd := range []string{"True", "False", ""} {
+			in.Claims = append(in.Claims, GCClaim{Name: fmt.Sprintf("nc-%02d", k), PID: pid(k), Registered: "True", Managed: true})
+			if k < 2 {
+				in.Nodes = append(in.Nodes, GCNode{Name: fmt.Sprintf("node-%02d", k), PID: pid(k), Ready: rd})
+			}
+			switch prov {
+			case "listed":
+				in.Provider = append(in.Provider, GCInst{PID: pid(k)})
+			case "terminating":
+				in.Provider = append(in.Provider, GCInst{PID: pid(k), Deleting: true})
+			}
+		}
+		return in
+	}
+	for _, prov := range []string{"listed", "absent", "terminating"} {
+		out = append(out, base(prov))
+		for _, cls := range apiErrClasses {
+			in := base(prov)
+			in.ListClaimsFault, in.ListClaimsErr = true, cls
+			out = append(out, in)
+		}
+		for _, cls := range providerErrClasses {
+			for _, partial := range []bool{false, true} {
+				in := base(prov)
+				in.ProviderListFault, in.ProviderListErr, in.ProviderListPartial = true, cls, partial
+				out = append(out, in)
+			}
+		}
+		// every Delete outcome class (the Delete is reached for the claims without a Ready Node)
+		for _, cls := range apiErrClasses {
+			in := base(prov)
+			in.DeleteFaults = []NamedFault{{Name: "nc-01", Fault: cls}}
+			out = append(out, in)
+		}
+	}
+	return out
 }
 
 func genGC(r *rand.Rand, _ core.Tier) any { return genGCBase(r, 0) }
@@ -146,11 +205,13 @@ func gcEligible(in *GCIn, c GCClaim) bool {
 }
 
 func genGCLookup(r *rand.Rand, t core.Tier) any {
-	// Node-lookup faults mostly hit provider ids whose claim would not be collected anyway (the lookup is not
-	// reached). Rarely - both known defects are enumerated exhaustively by enumGCLookup - the fault hits a
-	// collectable claim ("hot lookup") or a group of duplicate Nodes contains a Ready one ("hot dup"); never both
-	// in one input, so that every failing input reproduces exactly one known finding, and rarely enough that
-	// the known findings cannot crowd out the engine's failure list (20 per op).
+	// Node-lookup faults (error class uniform over apiErrClasses, one class per input) hit provider ids whose
+	// claim would not be collected anyway (the lookup is not reached; "cold") or - 30% - one collectable claim
+	// ("hot lookup": the collector returns on the failed lookup since the repair of the first GC finding, so
+	// these no longer reproduce it). Rarely - the open defect is enumerated exhaustively by enumGCLookup - a
+	// group of duplicate Nodes contains a Ready one ("hot dup"); never both in one input, so that every failing
+	// input reproduces exactly one finding, and rarely enough that the known finding cannot crowd out the
+	// engine's failure list (20 per op).
 	hot := 0.001
 	if t == core.Thorough {
 		hot = 0.0001
@@ -158,16 +219,17 @@ func genGCLookup(r *rand.Rand, t core.Tier) any {
 	mode := "cold"
 	switch x := r.Float64(); {
 	case x < hot:
-		mode = "hot-lookup"
-	case x < 2*hot:
 		mode = "hot-dup"
+	case x < 0.3:
+		mode = "hot-lookup"
 	}
 	dupReady := 0.0
 	if mode == "hot-dup" {
 		dupReady = 1
 	}
 	in := genGCBase(r, dupReady)
-	in.ListClaimsFault, in.ProviderListFault = false, false
+	in.ListClaimsFault, in.ProviderListFault, in.ListClaimsErr, in.ProviderListErr, in.ProviderListPartial = false, false, "", "", false
+	in.NodeListErr = pick(r, apiErrClasses)
 	eligiblePID := map[string]bool{}
 	for _, c := range in.Claims {
 		if gcEligible(&in, c) {
@@ -214,8 +276,8 @@ func enumGCLookup(_ core.Tier) []any {
 						if fault && !(len(nc) == 0 || (len(nc) == 1 && (nc[0].ready == "True" || nc[0].ready == "False"))) {
 							continue // with the lookup failed the Nodes are never seen: a few representatives suffice
 						}
-						if prov == "terminating" && (fault || dupReady) && reg == "True" && !deleting {
-							continue // keep the number of inputs that reproduce the known findings small
+						if prov == "terminating" && dupReady && reg == "True" && !deleting {
+							continue // keep the number of inputs that reproduce the known finding small
 						}
 						in := GCIn{Claims: []GCClaim{{Name: "nc-00", PID: pid(0), Registered: reg, Deleting: deleting, Managed: true}},
 							Provider: []GCInst{{PID: pid(1)}}, Nodes: []GCNode{{Name: "node-99", PID: pid(1), Ready: "True"}}, NodeListFaultPIDs: []string{}, DeleteFaults: []NamedFault{}}
@@ -229,7 +291,14 @@ func enumGCLookup(_ core.Tier) []any {
 							in.Nodes = append(in.Nodes, GCNode{Name: fmt.Sprintf("node-%02d", j), PID: pid(0), Ready: n.ready, Terminating: n.term})
 						}
 						if fault {
-							in.NodeListFaultPIDs = []string{pid(0)}
+							// every error class the Node list can fail with
+							for _, cls := range apiErrClasses {
+								x := in
+								x.NodeListFaultPIDs = []string{pid(0)}
+								x.NodeListErr = cls
+								out = append(out, x)
+							}
+							continue
 						}
 						out = append(out, in)
 					}
@@ -291,11 +360,11 @@ func implGC(raw json.RawMessage) (any, error) {
 				switch list.(type) {
 				case *v1.NodeClaimList:
 					if in.ListClaimsFault {
-						return faultErr("err", "nodeclaims")
+						return apiErr(orErr(in.ListClaimsErr), "nodeclaims")
 					}
 				case *corev1.NodeList:
 					if p, ok := fieldSelectorValue(opts, "spec.providerID"); ok && failPID[p] {
-						return faultErr("err", "nodes")
+						return apiErr(orErr(in.NodeListErr), "nodes")
 					}
 				}
 			}
@@ -304,7 +373,7 @@ func implGC(raw json.RawMessage) (any, error) {
 		Delete: func(ctx context.Context, w client.WithWatch, obj client.Object, opts ...client.DeleteOption) error {
 			if _, ok := obj.(*v1.NodeClaim); ok && armed {
 				rec.deleted(obj.GetName())
-				if err := faultErr(delFault[obj.GetName()], obj.GetName()); err != nil {
+				if err := apiErr(delFault[obj.GetName()], obj.GetName()); err != nil {
 					return err
 				}
 			}
@@ -331,7 +400,7 @@ func implGC(raw json.RawMessage) (any, error) {
 		}
 	}
 	cp := newProvider()
-	cp.listErr = in.ProviderListFault
+	cp.listErr, cp.listErrClass, cp.listPartial = in.ProviderListFault, in.ProviderListErr, in.ProviderListPartial
 	for i, p := range in.Provider {
 		inst := &v1.NodeClaim{ObjectMeta: metav1.ObjectMeta{Name: fmt.Sprintf("inst-%d", i)}, Status: v1.NodeClaimStatus{ProviderID: p.PID}}
 		if p.Deleting {
@@ -434,16 +503,28 @@ func gcLabels(raw json.RawMessage, impl any) []string {
 	json.Unmarshal(raw, &in)
 	l := []string{fmt.Sprintf("claims=%d", len(in.Claims))}
 	if in.ListClaimsFault {
-		l = append(l, "fault:listClaims")
+		l = append(l, "fault:listClaims", "fault:listClaims:"+orErr(in.ListClaimsErr))
 	}
 	if in.ProviderListFault {
-		l = append(l, "fault:providerList")
+		l = append(l, "fault:providerList", "fault:providerList:"+orErr(in.ProviderListErr))
+		if in.ProviderListPartial {
+			l = append(l, "fault:providerList:partial-result")
+		}
 	}
 	if len(in.NodeListFaultPIDs) > 0 {
-		l = append(l, "fault:nodeLookup")
+		l = append(l, "fault:nodeLookup", "fault:nodeLookup:"+orErr(in.NodeListErr))
+		for _, c := range in.Claims {
+			if gcEligible(&in, c) && c.PID != "" && slices.Contains(in.NodeListFaultPIDs, c.PID) {
+				l = append(l, "fault:nodeLookup:of-collectable-claim", "fault:nodeLookup:of-collectable-claim:"+orErr(in.NodeListErr))
+				break
+			}
+		}
 	}
 	if len(in.DeleteFaults) > 0 {
 		l = append(l, "fault:delete")
+		for _, f := range in.DeleteFaults {
+			l = append(l, "fault:delete:"+f.Fault)
+		}
 	}
 	elig := 0
 	for _, c := range in.Claims {
